@@ -154,6 +154,8 @@ def search(pid, ob, repo, scratch):
     fn = ob.get('fn', '')
     if pid == 'C14' and ob.get('unit') == 'c13_tree':
         ops = ['dom.preorder_after_edits']
+    if pid == 'C12' and fn.startswith('Context::'):
+        ops = ['dom.views_after_edits']
     if pid == 'C12' and (fn.startswith('HasChildren::') or fn.endswith('::insert_by_id') or fn.endswith('::delete_by_id')):
         ops = ['dom.views_after_edits', 'dom.tree_atomic']
     if ob.get('unit') == 'eval_ctx' or fn.startswith('eval_') or fn.startswith('model::Context::') or (pid == 'C06' and fn.startswith('xpath::func::')):
@@ -170,7 +172,7 @@ def search(pid, ob, repo, scratch):
         # edit-history grids: prefer the scenario that exercises the function whose obligation failed
         prefer = {'HasChildren::append': 'append_new_after_child_with_descendants', 'HasChildren::insert_before': 'move_within_parent_before',
                   'XmlElement::last_child_or_self_id': 'append_new_after_child_with_descendants', 'XmlDocument::last_child_or_self_id': 'append_new_after_child_with_descendants',
-                  'XmlElement::append_attribute': 'set_attribute_on_element_with_children'}
+                  'XmlElement::append_attribute': 'set_attribute_on_element_with_children', 'Context::node': 'move_out_of_detached_parent'}
         for k, v in prefer.items():
             if fn.startswith(k) and op.endswith('_after_edits'):
                 sites = [v]
